@@ -23,15 +23,20 @@ type genUpd struct {
 	partialFirst bool // both filters present: the partial one comes first in the array
 }
 
-// idsFor builds key values for an item: first key from {0..3}, second from {0,1}, others 0.
+// idsFor builds key values for an item: first key from {0..3, 11}, second from {0, 1, 11}, third
+// from {0, 1}, others 0 (two-digit values: identifiers whose decimal digits run into each other
+// when written side by side, (1,11) and (11,1), are different identifiers).
 //
 //go:norace
 func idsFor(w *World, info FnInfo) []uint {
 	n := len(shapeOf(info.ItemType).Keys)
 	ids := make([]uint, n)
-	ids[0] = uint(w.T.Choose(4, "id0"))
+	ids[0] = []uint{0, 1, 2, 3, 11}[w.T.Choose(5, "id0")]
 	if n > 1 {
-		ids[1] = uint(w.T.Choose(2, "id1"))
+		ids[1] = []uint{0, 1, 11}[w.T.Choose(3, "id1")]
+	}
+	if n > 2 {
+		ids[2] = uint(w.T.Choose(2, "id2"))
 	}
 	return ids
 }
